@@ -34,6 +34,7 @@ def run_worker(mode: str, cases: List[dict], extra: Dict, nproc: int = NCPU, tim
         return [], {}
     nproc = max(1, min(nproc, (len(cases) + 19) // 20))
     chunks = [cases[i::nproc] for i in range(nproc)]
+    run_worker.last_nproc = nproc  # cases i and i - nproc ran back to back in the same worker
 
     def work(ch):
         job = dict(mode=mode, cases=ch)
